@@ -680,3 +680,37 @@ def r04_16_tie_at_the_end_of_time(ctx: Ctx) -> RuleResult:
         else:
             rr.ok({"fn": f.qual, "previous transitions": sorted(prev), "rules returned": sorted(rets)})
     return rr
+
+
+@rule("C04")
+def r04_17_single_transition_zone_boundary(ctx: Ctx) -> RuleResult:
+    """The testing zone with one transition: zone intervals are half-open [start, end), so the transition instant itself belongs
+    to the LATE interval.  get_zone_interval must decide by containment in one of its two intervals or by `instant >= transition`
+    (late) / `instant < transition` (early); `>` / `<=` hands the transition instant to the interval that ends there."""
+    rr = RuleResult("R04.17", "SingleTransitionDateTimeZone: the transition instant belongs to the late interval (containment test or >= / <, never > / <=)", min_instances=1)
+    M = ctx.M
+    c = M.cls("SingleTransitionDateTimeZone", required=True)
+    f = M.find_method(c, "get_zone_interval")
+    if f is None:
+        raise AnalysisError("SingleTransitionDateTimeZone.get_zone_interval missing")
+    rr.inst()
+    cmps = [n for n in own_nodes(f.node) if isinstance(n, ast.Compare) and len(n.ops) == 1]
+    if not cmps:
+        raise AnalysisError(f"{f.qual}: no comparison found")
+    bad = None
+    for n in cmps:
+        op = n.ops[0]
+        txt = unparse(n)
+        if isinstance(op, (ast.In, ast.NotIn)) and "interval" in unparse(n.comparators[0]):
+            continue
+        if "transition" in txt:
+            inst_left = "transition" not in unparse(n.left)
+            # instant OP transition
+            strict_wrong = (isinstance(op, ast.Gt) or isinstance(op, ast.LtE)) if inst_left else (isinstance(op, ast.Lt) or isinstance(op, ast.GtE))
+            if strict_wrong:
+                bad = n
+    if bad is None:
+        rr.ok({"fn": f.qual, "tests": [unparse(n)[:50] for n in cmps]})
+    else:
+        rr.fail(f.qual, f"`{unparse(bad)}` puts the transition instant itself into the early interval, whose end (exclusive) it is: the interval returned for that instant does not contain it", ctx.loc(f, bad))
+    return rr
